@@ -777,6 +777,64 @@ def genString (bind : Nat → String → String) : Def → GMethod
           body := if tys.isEmpty then .lit (n ++ "::" ++ vn)
                   else concatParts ([.lit (n ++ "::" ++ vn ++ "(")] ++ stringEnumParts 0 tys ++ [.lit ")"]) } }
 
+/-! ### which traits an item derives: `find_derive_attr` / `parse_derive_targets` -/
+
+def isSpace (c : Char) : Bool := c = ' ' || c = '\t' || c = '\n' || c = '\r'
+
+def trimStart (cs : List Char) : List Char := cs.dropWhile isSpace
+
+def trimBoth (cs : List Char) : List Char := (trimStart (trimStart cs).reverse).reverse
+
+def stripSuffix (p cs : List Char) : Option (List Char) :=
+  match stripPrefix p.reverse cs.reverse with
+  | some r => some r.reverse
+  | none => none
+
+/-- `str::split(',')` -/
+def splitComma : List Char → List (List Char)
+  | [] => [[]]
+  | c :: cs =>
+    if c = ',' then [] :: splitComma cs
+    else match splitComma cs with
+      | [] => [[c]]
+      | x :: xs => (c :: x) :: xs
+
+/-- `parse_derive_targets`: the attribute's text is `#[ derive ( t₁ , t₂ , … ) ]` with at least one
+    non-empty target; anything else (another attribute, `#![…]`, `#[derive]`, `#[derive()]`) is no derive -/
+def parseDeriveTargets (text : List Char) : Option (List (List Char)) :=
+  match stripPrefix "#[".toList (trimBoth text) with
+  | none => none
+  | some a =>
+    match stripSuffix "]".toList a with
+    | none => none
+    | some b =>
+      match stripPrefix "derive".toList (trimBoth b) with
+      | none => none
+      | some c =>
+        match stripPrefix "(".toList (trimStart c) with
+        | none => none
+        | some e =>
+          match stripSuffix ")".toList e with
+          | none => none
+          | some f =>
+            let ts := ((splitComma f).map trimBoth).filter (fun t => !t.isEmpty)
+            if ts.isEmpty then none else some ts
+
+/-- one attribute is a derive that lists the trait -/
+def listsTrait (a tr : List Char) : Bool :=
+  match parseDeriveTargets a with
+  | some ts => ts.contains tr
+  | none => false
+
+/-- `find_derive_attr(attrs, trait).is_some()`: SOME attribute is a derive that lists the trait
+    (unknown targets and other attributes are skipped silently) -/
+def derivesTrait (attrs : List (List Char)) (tr : List Char) : Bool := attrs.any fun a => listsTrait a tr
+
+/-- the impl blocks `derive::expand` appends after an item: `to_string` first, then `to_json` -/
+def expandImpls (bind : Nat → String → String) (attrs : List (List Char)) (d : Def) : List GMethod :=
+  (if derivesTrait attrs "ToString".toList then [genString bind d] else []) ++
+  (if derivesTrait attrs "ToJson".toList then [genJson bind d] else [])
+
 /-! ### what the generated bodies compute -/
 
 /-- the runtime helpers the bodies call by name (`builtin.gom`, `go/runtime.rs`) -/
